@@ -559,6 +559,10 @@ class Emitter:
             e += ".drop_last()"
         inv.append("%s == %s.rstack()" % (e, o))
         inv += ["%s.pos >= p_%d" % (r, k), "(%s.pos == p_%d ==> %s.current == c_%d)" % (r, k, r, k)]
+        if self.f.has_ret:
+            inv.append("%s.in_ordered_choice == %s.in_ordered_choice" % (r, o))
+        else:
+            inv.append("!%s.in_ordered_choice" % r)
         if self.f.parent is not None and "lhs" in closed and closed["lhs"] == 0:
             inv.append("lhs.0 == lhs0.0")
         for v in closed:
@@ -600,6 +604,7 @@ class Emitter:
         fin = "final(%s)" % r
         P = self.interp.P.get(self.key, set())
         N = self.interp.N.get(self.key, set())
+        opt = f.has_ret      # rule reachable from an ordered choice: returns Option<()>, None = backtrack
         req = ["%s.wf()" % o]
         C = self.interp.C.get(self.key, set())
         if C and len(C) < len(self.alphabet):
@@ -614,10 +619,24 @@ class Emitter:
             ens.append("%s ==> %s.pos > %s.pos" % (tokset("%s.current" % o, P, self.alphabet), fin, o))
         if N:
             ens.append("%s ==> %s.pos == %s.pos" % (tokset("%s.current" % o, N, self.alphabet), fin, o))
+        if opt:
+            # backtracking is requested only while an ordered choice is being tried
+            ens = ["(r is Some ==> %s)" % e for e in ens]
+            ens.append("(r is None ==> %s.in_ordered_choice && %s.wf() && %s.same_input(%s))" % (o, fin, fin, o))
+            ens.append("%s.in_ordered_choice == %s.in_ordered_choice" % (fin, o))
+        else:
+            req.append("!%s.in_ordered_choice" % o)
+            ens.append("!%s.in_ordered_choice" % fin)
         spec = "\n        requires %s,\n        ensures %s,\n" % (", ".join(req), ",\n            ".join(ens))
         if not external:
             spec += "        decreases %s.rem(), %dint\n    " % (o, self.rank.get(self.key, 0))
         return spec
+
+    def name_ret(self):
+        f, st = self.f, self.ix.st
+        if f.has_ret:
+            self.ed.insert(st[f.i_arrow + 1].s, "(r: ")
+            self.ed.insert(st[f.i_body - 1].e, ")")
 
 
 def annotate(ix, ed, report, skeleton_only=False):
@@ -660,6 +679,7 @@ def annotate(ix, ed, report, skeleton_only=False):
             rep["functions"][key] = {"assumed": True}
             continue
         spec = em.emit_spec(body)
+        em.name_ret()
         ed.insert(st[f.i_body].s, spec)
         if skeleton_only:
             ed.insert(st[f.i_attr].s, "#[verifier::external_body] ")
@@ -698,8 +718,9 @@ def annotate(ix, ed, report, skeleton_only=False):
     ext_specs = []
     for key, (f, body) in fobj.items():
         if body is None:
-            ret = ""
+            sig = "(p: &mut Parser<'a>, diags: &mut Vec<<Parser<'a> as ParserCallbacks<'a>>::Diagnostic>)"
             if f.has_ret:
-                ret = " -> (r: Option<()>)"
-            ext_specs.append("pub assume_specification<'a> [Parser::<'a>::%s] (p: &mut Parser<'a>, diags: &mut Vec<Diagnostic>)%s\n    requires old(p).wf(),\n    ensures final(p).step(old(p));\n" % (f.name, ret))
+                ext_specs.append("pub assume_specification<'a> [Parser::<'a>::%s] %s -> (r: Option<()>)\n    requires old(p).wf(),\n    ensures (r is Some ==> final(p).step(old(p))), (r is None ==> old(p).in_ordered_choice && final(p).wf() && final(p).same_input(old(p))),\n        (!old(p).in_ordered_choice ==> !final(p).in_ordered_choice);\n" % (f.name, sig))
+            else:
+                ext_specs.append("pub assume_specification<'a> [Parser::<'a>::%s] %s\n    requires old(p).wf(), !old(p).in_ordered_choice,\n    ensures final(p).step(old(p)), !final(p).in_ordered_choice;\n" % (f.name, sig))
     report["ext_specs"] = ext_specs
